@@ -166,6 +166,11 @@ def run(ctx, prop):
     s = ctx.seed
     quick = ctx.tier == "quick"
     ctx.tlc_model("IndexedRead.tla", "Indexed_quick.cfg" if quick else "Indexed_thorough.cfg", timeout=3400)
+    if prop in ("C03", "C20"):
+        # chunk arrangements in depth (spanning, nesting, chains, backwards): 3 chunks x 4 times, thorough also 4 chunks x 3 times
+        ctx.tlc_model("IndexedRead.tla", "Indexed_span3.cfg", workers=12, timeout=1800)
+        if not quick:
+            ctx.tlc_model("IndexedRead.tla", "Indexed_span4.cfg", workers=12, timeout=3400)
     if not quick:
         ctx.tlc_model("IndexedRead.tla", "Indexed_wide.cfg", timeout=3400)
     reads = {"C02": 4, "C03": 4, "C04": 24, "C20": 6}[prop]
@@ -176,6 +181,9 @@ def run(ctx, prop):
     elif prop in ("C03", "C04"):
         drive(ctx, prop, "replay", ["-mode", "rand", "-seed", s + 7, "-n", 12, "-reads", reads], replay_workers=8)
         drive(ctx, prop, "exh", ["-mode", "exh", "-seed", s, "-chunks", 2, "-msgs", 2, "-times", 4, "-stride", 6 if quick else 1, "-reads", reads])
+        if prop == "C03":
+            # the real iterator on the file space of Indexed_span3.cfg (one channel, 3 chunks, 4 times): every 8th file / all
+            drive(ctx, prop, "span3", ["-mode", "exh", "-seed", s, "-chunks", 3, "-msgs", 2, "-times", 4, "-chans", 1, "-stride", 8 if quick else 1, "-reads", 0])
         if not quick:
             drive(ctx, prop, "exh3", ["-mode", "exh", "-seed", s, "-chunks", 3, "-msgs", 2, "-times", 3, "-stride", 4, "-reads", reads])
             drive(ctx, prop, "exh33", ["-mode", "exh", "-seed", s, "-chunks", 3, "-msgs", 3, "-times", 4, "-stride", 6000, "-reads", reads])
